@@ -229,6 +229,30 @@ fn check_one(ctx: &mut Ctx, db: &SimpleParserDatabase, src: &str, cfg: &Formatte
         let (root1, d1) = db.parse_virtual_with_diagnostics(&o1);
         let parse_ok = d1.get_all().is_empty();
         let o2 = if parse_ok { get_formatted_file(db, &root1, cfg.clone()) } else { String::new() };
+        // the innermost syntax node of the first output that contains the first byte the second pass changes
+        let node_at = if parse_ok && o2 != o1 {
+            let i = o1.bytes().zip(o2.bytes()).position(|(a, b)| a != b).unwrap_or(o1.len().min(o2.len()));
+            let mut cur = root1;
+            let mut best = format!("{:?}", cur.kind(db));
+            loop {
+                let ch = cur.get_children(db);
+                let Some(c) = ch.iter().find(|c| {
+                    let sp = c.span(db);
+                    (sp.start.as_u32() as usize) <= i && i < (sp.end.as_u32() as usize)
+                }) else {
+                    break;
+                };
+                let name = format!("{:?}", c.kind(db));
+                if name.starts_with("Terminal") || name.starts_with("Token") || name == "Trivia" {
+                    break;
+                }
+                best = name;
+                cur = *c;
+            }
+            best
+        } else {
+            String::new()
+        };
         let t0 = toks(db, root);
         let t1 = toks(db, root1);
         let reorder = cfg.sort_module_level_items || cfg.merge_use_items;
@@ -241,9 +265,9 @@ fn check_one(ctx: &mut Ctx, db: &SimpleParserDatabase, src: &str, cfg: &Formatte
         } else {
             None
         };
-        Some((o1, parse_ok, o2, t0, t1, canon))
+        Some((o1, parse_ok, o2, t0, t1, canon, node_at))
     });
-    let (o1, parse_ok, o2, t0, t1, canon) = match r {
+    let (o1, parse_ok, o2, t0, t1, canon, node_at) = match r {
         Err((loc, msg)) => {
             ctx.count("formatter_panics_left_to_C09", 1);
             let _ = (loc, msg);
@@ -291,7 +315,10 @@ fn check_one(ctx: &mut Ctx, db: &SimpleParserDatabase, src: &str, cfg: &Formatte
         // inputs made by inserting a comment at an unusual place form their own class of findings
         let inserted = origin().get("replacement").and_then(|r| r.as_str()).map(|r| r.contains("//")).unwrap_or(false);
         let width_class = format!("{width_class}{}", if inserted && class != "space-before-comment" { ":comment-inserted" } else { "" });
-        ctx.violation(format!("not-idempotent:{kind}:{class}{width_class}"), format!("f(f(t)) != f(t) near {:?} vs {:?}", ctxt(&o1), ctxt(&o2)), case());
+        // (the missing space before a comment is one defect wherever it occurs; the other classes are told apart by
+        // the syntax node in which the second pass first changes something)
+        let node_suffix = if class == "space-before-comment" { String::new() } else { format!("@{node_at}") };
+        ctx.violation(format!("not-idempotent:{kind}:{class}{width_class}{node_suffix}"), format!("f(f(t)) != f(t) in a {node_at} near {:?} vs {:?}", ctxt(&o1), ctxt(&o2)), case());
     }
     match canon {
         None => {
